@@ -15,7 +15,7 @@ PROPS = {
     'C19': {'units': ['run19', 'pexec'], 'kani': K_CONTEXT, 'only': {'pexec': r'resolve_private_data'}},
     'C20': {'units': ['gad', 'quot', 'fri', 'periodic', 'fquery'], 'kani': [], 'only': {'fri': r'evaluate_polynomial|circuit_exp_by_constant|lemma_', 'fquery': r'final_query_point'}},
     'C07': {'units': ['fri', 'shape', 'fold', 'fchain', 'fquery', 'evpts', 'openin', 'onehot'], 'kani': [], 'only': {'shape': r'verify_fri_circuit'}, 'exclude': r'possible (bit shift|arithmetic)'},
-    'C05': {'units': ['chal', 'coef'], 'kani': [], 'exclude': r'canonical_width', 'only': {'coef': r'select_path'}},
+    'C05': {'units': ['chal', 'coef', 'bind'], 'kani': [], 'exclude': r'canonical_width', 'only': {'coef': r'select_path', 'bind': r'add_poseidon[12]_perm_for_challenger(_base)?\.ensures\[(frame|shape|succeeds_when_enabled)\]'}},
     'C06': {'units': ['bind', 'pchain', 'pexec'], 'kani': [], 'only': {'pexec': r'compact_header|limb_ctl_enabled|preprocess_flags'}},
     'C17': {'units': ['cache', 'rcplug', 'backcfg'], 'kani': []},
     'C10': {'units': ['sched', 'tracegen', 'ptrace', 'vrfy', 'extkind'], 'kani': []},
